@@ -72,7 +72,12 @@ def check_transparency(run, rule):
         if not f.get("file", "").startswith(facts.repo):
             continue
         n += 1
-        tries = [x for x in ir.walk(f["body"]) if x.get("k") == "Try"]
+        # a handler that can only be left by throwing again (cleanup + `throw;`) passes the end-of-input error on
+        def transparent(t_):
+            return all(ir.always_leaves(h_.get("body")) and
+                       not any(x_.get("k") in ("Return", "Break", "Continue") for x_ in ir.walk(h_.get("body")))
+                       for h_ in t_.get("handlers", []))
+        tries = [x for x in ir.walk(f["body"]) if x.get("k") == "Try" and not transparent(x)]
         run.ob(rule, "no-handler:%s" % f["qn"].replace("CDNS::", ""), not tries, f, tries[0]["l"] if tries else f["line"],
                "no exception handler on the read path" if not tries else
                "a handler inside the read path can turn end-of-input into a normal return (fabricated block)", nontrivial=False)
